@@ -21,13 +21,15 @@ RawDeps(chain) == IF chain = <<>> THEN <<>> ELSE chain[1].deps \o RawDeps(Tail(c
 \* first-wins merge and the import, so an imported BOM can fill the key the dropped entry would have kept
 LibMgmtOwn(lin) == LET dict == Dict(lin) raw == CatF(Chain(lin, 1), "mgmt")
                        itp == [i \in 1..Len(raw) |-> InterpDep(raw[i], dict)] IN FirstWins(SelectSeq(itp, LAMBDA d : Resolved(d.v)), <<>>)
-RECURSIVE LibImportAll(_, _, _)
-LibImportAll(imports, boms, acc) ==
-  IF imports = <<>> THEN acc
+RECURSIVE LibImportAllD(_, _, _, _)
+LibImportAllD(imports, boms, acc, depth) ==
+  IF imports = <<>> \/ depth = 0 THEN acc
   ELSE LET d == imports[1]
            cand == {b \in 1..Len(boms) : boms[b][1].g = d.g /\ boms[b][1].a = d.a /\ <<L(boms[b][1].v)>> = d.v}
-       IN LibImportAll(Tail(imports), boms,
-                       IF cand = {} THEN acc ELSE FirstWins(SelectSeq(LibMgmtOwn(boms[CHOOSE b \in cand : TRUE]), LAMBDA x : ~IsImport(x)), acc))
+           bm == IF cand = {} THEN <<>> ELSE LibMgmtOwn(boms[CHOOSE b \in cand : TRUE])
+       IN LibImportAllD(Tail(imports), boms,
+                        LibImportAllD(SelectSeq(bm, IsImport), boms, FirstWins(SelectSeq(bm, LAMBDA x : ~IsImport(x)), acc), depth - 1), depth)
+LibImportAll(imports, boms, acc) == LibImportAllD(imports, boms, acc, 4)
 LibMgmt(lin, boms) == LET own == LibMgmtOwn(lin) IN LibImportAll(SelectSeq(own, IsImport), boms, SelectSeq(own, LAMBDA x : ~IsImport(x)))
 HasUnresolvedMgmt(lin, boms) == (LET dict == Dict(lin) raw == CatF(Chain(lin, 1), "mgmt") IN \E i \in 1..Len(raw) : ~Resolved(Interp(raw[i].v, dict)))
                                 \/ \E b \in 1..Len(boms) : LET dict == Dict(boms[b]) raw == CatF(Chain(boms[b], 1), "mgmt") IN \E i \in 1..Len(raw) : ~Resolved(Interp(raw[i].v, dict))
